@@ -3,7 +3,7 @@
    SigSafe.v, SigConn.v; Print Assumptions follows each. *)
 From Coq Require Import List NArith Bool.
 Import ListNotations.
-Require Import Util SigCore SigLemmas SigInv SigSafe SigSpec SigConn.
+Require Import Util SigCore SigLemmas SigInv SigSafe SigSpec SigConn SigQuiesce SigWatch.
 Local Open Scope N_scope.
 
 Theorem C04_connected_tells_the_truth : S_conn_query_truth.
@@ -29,3 +29,9 @@ Print Assumptions C04_node_ids_never_reused.
 Theorem C04_every_operation_memory_safe : forall (fuel : nat) (p : program), match run_program fuel p with Ok _ => True | Err e => safe_err e end.
 Proof. exact ll_safe. Qed.
 Print Assumptions C04_every_operation_memory_safe.
+
+(* on every reachable state a handle is registered exactly at the element it refers to: every
+   registration in an element's watch list is a handle pointing at that element *)
+Theorem C04_watch_lists_exact : S_watch_exact.
+Proof. exact watch_exact_reachable. Qed.
+Print Assumptions C04_watch_lists_exact.
